@@ -187,6 +187,8 @@ def parse_operand(s):
         return Operand("move", parse_place(s[5:]))
     if s.startswith("const "):
         return Operand("const", const=s[6:].strip())
+    if re.fullmatch(r"[A-Za-z_<][A-Za-z0-9_:<>, &'\[\]()@./{}#-]*", s):
+        return Operand("const", const="fnitem " + s)  # a function item used as a value
     raise Unsupported("operand: " + s)
 
 
@@ -231,10 +233,17 @@ def parse_rvalue(s):
         return Rvalue("tuple", [parse_operand(e) for e in elems])
     if s.startswith("{closure@") or s.startswith("{coroutine"):
         j = match_paren(s, 0)
-        return Rvalue("closure", s[: j + 1])
+        rest = s[j + 1:].strip()
+        caps = []
+        if rest.startswith("{") and rest.endswith("}"):
+            for f in split_top(rest[1:-1]):
+                if ": " in f:
+                    fn_, val = f.split(": ", 1)
+                    caps.append((fn_.strip(), parse_operand(val)))
+        return Rvalue("closure", s[: j + 1], caps)
     # ADT aggregate:  Path::Variant(ops) | Path::Variant { f: op } | Path { f: op } | Path::Variant
     m = re.fullmatch(r"(.+?)\s*\{(.*)\}", s, re.S)
-    if m and not m.group(1).rstrip().endswith(("=", ">", "-")):
+    if m and not m.group(1).rstrip().endswith(("=", "-")):
         path = m.group(1).strip()
         fields = []
         for f in split_top(m.group(2)):
